@@ -292,7 +292,7 @@ def tagged_lines(text, tag):
     return out
 
 
-def validate_trace(tag, base, trace_file, consts=None, timeout=600, heap="4g", view=None, spec="TSpec", report="Report"):
+def validate_trace(tag, base, trace_file, consts=None, timeout=600, heap="4g", view=None, spec="TSpec", report="Report", post="Accepted"):
     """TLC validates one recorded ndjson trace against trace spec `base` (TSpec/Track/Accepted/Report).
     Returns dict(accepted, reject (decoded TRACE-REJECT payload or None), states, wall_s, text)."""
     d = run_dir(tag)
@@ -300,7 +300,7 @@ def validate_trace(tag, base, trace_file, consts=None, timeout=600, heap="4g", v
     if base == "BookTrace":
         consts.setdefault("FixTies", True)     # BookImpl.tla models the repaired tie handling of the current code
     write_model(d, "MC", base, consts,
-                ["SPECIFICATION " + spec, "INVARIANT " + report, "CONSTRAINT Track", "POSTCONDITION Accepted"] + (["VIEW " + view] if view else []))
+                ["SPECIFICATION " + spec, "INVARIANT " + report, "CONSTRAINT Track", "POSTCONDITION " + post] + (["VIEW " + view] if view else []))
     env = dict(os.environ, TRACE=trace_file,
                JAVA_TOOL_OPTIONS="-Xss1g -Xmx%s -Dtlc2.tool.queue.IStateQueue=StateDeque" % heap)
     t0 = time.time()
